@@ -252,13 +252,14 @@ def extreme_kernel(run, m, rev, arg):
            '%d read(s) of the cache after the expiry step' % len(res_reads))
     # result expression
     if arg:
-        maps = [x for x in walk(m.body) if x.get('k') == 'MethodCall' and x['method'] == 'map' and
-                peel(x['ch'][0]).get('local') == iloc]
+        # `idx.map(f)`, `idx.map_or(d, f)`, `idx.map_or_else(d, f)`: the closure is the last argument
+        maps = [x for x in walk(m.body) if x.get('k') == 'MethodCall' and
+                x['method'] in ('map', 'map_or', 'map_or_else') and peel(x['ch'][0]).get('local') == iloc]
         okm = False
         det = 'no `%s.map(..)`' % I
         if len(maps) == 1:
             from algebra import parse_poly
-            cl = peel(maps[0]['ch'][1])
+            cl = peel(maps[0]['ch'][-1])
             en_c = dtree.env_at(m.body, cl['ch'][0], dict(env)) if cl.get('k') == 'Closure' else {}
             body_s = dtree.canon(cl['ch'][0], en_c) if cl.get('k') == 'Closure' else '?'
             p = parse_poly(body_s)
